@@ -22,8 +22,8 @@ FAULTS = {
                      'say 1 plus', 'say 1 times', 'say not', 'say X at', 'say 1 is', 'say X is greater than', 'say X taking', 'X taking', 'Let X at be 1', 'Cut X into', 'Cut X with', 'Rock X with', 'Roll X into', 'Put 1 plus into X',
                      'say 1 and', 'X takes', 'X takes Y and', 'say 1 plus 2, and', 'Let X be 1, 2, and', 'say X with 1, my', 'say X times 2, -', 'Rock X with 1, and', 'say X taking 1, and', 'say X taking 1 &'],
  'missing-keyword': ['Put 1 X', 'Let X 1', 'Build X', 'Knock X', 'Listen X', 'Take it to the', 'Take it', 'say X is as big', 'say X is bigger 1', 'Cut X into', 'Rock X 1'],
- 'two-statements': ['say 1 say 2', 'Put 1 into X say 2', 'Build X up say 1', 'say 1 Put 2 into X', 'Listen to X say X', 'Break say 1', 'Continue say 1', 'say 1 Break', 'Roll X say 1', 'give back 1 say 2', 'say 1 Let X be 2'],
- 'invalid-identifier': ['a1 is 5', 'x_y is 5', '_ is 1', 'say a1', 'Put 1 into a1', 'Let x2 be 1', 'x1', 'Build a1 up'],
+ 'two-statements': ['say 1 say 2', 'Put 1 into X say 2', 'Build X up say 1', 'say 1 Put 2 into X', 'Listen to X say X', 'Break say 1', 'Continue say 1', 'say 1 Break', 'Roll X say 1', 'give back 1 say 2', 'say 1 Let X be 2', 'say 1. say 2', 'Put 1 into X, say X', 'If X, say 1', 'F takes Y. give back Y', 'Build X up. Knock X down', 'say 1, say 2', 'Listen to X. say X'],
+ 'invalid-identifier': ['a1 is 5', 'x_y is 5', '_ is 1', 'say a1', 'Put 1 into a1', 'Let x2 be 1', 'x1', 'Build a1 up', 'ab\u0661c is 3', 'lo\U0001F600e is 5', 'say x\u0661', 'Put 1 into y\U0001F600'],
  'unterminated-string': ['"abc', '"', 'say "abc', 'Put "x into Y'],
  'stray-token': ['into X', 'with 5', 'plus 1', 'at 1', 'taking 1', "'s 5", ', say 1', '& say 1', 'and say 1', 'is 5', 'up', 'like a wall', 'than 1', 'as 1', '5', '"s"', 'true', '+ 1', '<= 1'],
 }
